@@ -235,6 +235,9 @@ def produced_by_log(w):
 
 def oracle_c04(w):
     out = []
+    for (i, tname) in w.side.get('escaped', []):
+        out.append((f'handler-exception-escaped({tname})', f'an exception raised by a handler left tick()/flush() at log[{i}]: '
+                    'remaining handlers, later events and the loop did not run'))
     E = parse(w.log)
     prod, raises, unfinished, last, unsupported = produced_by_log(w)
     names = names_of(E)
